@@ -385,4 +385,113 @@ Proof.
     pose proof bA_big. lia.
 Qed.
 
+(* ---------- more fuel never changes a result ---------- *)
+Record mo_at (f : nat) : Prop := {
+  mo_let : forall ids ts r, parse_let cfg f ids ts = r -> r <> POOF -> parse_let cfg (S f) ids ts = r;
+  mo_expr : forall ids ts r, parse_expression cfg f ids ts = r -> r <> POOF -> parse_expression cfg (S f) ids ts = r;
+  mo_call : forall k ids ts r, call_level cfg ids f k ts = r -> r <> POOF -> call_level cfg ids (S f) k ts = r;
+  mo_loop : forall k o a u ids ts r, parse_op_loop cfg f k o a u ids ts = r -> r <> POOF ->
+            parse_op_loop cfg (S f) k o a u ids ts = r;
+  mo_nonop : forall ids ts r, parse_nonop cfg f ids ts = r -> r <> POOF -> parse_nonop cfg (S f) ids ts = r;
+  mo_postfix : forall e u ids ts r, parse_postfix cfg f e u ids ts = r -> r <> POOF ->
+            parse_postfix cfg (S f) e u ids ts = r;
+  mo_literal : forall ids ts r, parse_literal cfg f ids ts = r -> r <> POOF -> parse_literal cfg (S f) ids ts = r;
+  mo_switch : forall sv cs u ids ts r, parse_switch cfg f sv cs u ids ts = r -> r <> POOF ->
+            parse_switch cfg (S f) sv cs u ids ts = r;
+  mo_args : forall c ids ts r, parse_args cfg f c ids ts = r -> r <> POOF -> parse_args cfg (S f) c ids ts = r;
+  mo_args_loop : forall c acc u ids ts r, parse_args_loop cfg f c acc u ids ts = r -> r <> POOF ->
+            parse_args_loop cfg (S f) c acc u ids ts = r;
+  mo_map : forall m u ids ts r, parse_map cfg f m u ids ts = r -> r <> POOF -> parse_map cfg (S f) m u ids ts = r
+}.
+
+Ltac mono_rw f IH E :=
+  match type of E with
+  | parse_let cfg f _ _ = _ => rewrite (mo_let f IH _ _ _ E ltac:(discriminate))
+  | parse_expression cfg f _ _ = _ => rewrite (mo_expr f IH _ _ _ E ltac:(discriminate))
+  | call_level cfg _ f _ _ = _ => rewrite (mo_call f IH _ _ _ _ E ltac:(discriminate))
+  | parse_nonop cfg f _ _ = _ => rewrite (mo_nonop f IH _ _ _ E ltac:(discriminate))
+  | parse_literal cfg f _ _ = _ => rewrite (mo_literal f IH _ _ _ E ltac:(discriminate))
+  | parse_args cfg f _ _ _ = _ => rewrite (mo_args f IH _ _ _ _ E ltac:(discriminate))
+  | _ => idtac
+  end.
+
+Ltac mono_walk f IH :=
+  repeat match goal with
+  | Hr : ?R <> POOF |- _ = ?R =>
+      match R with
+      | context [match ?x with _ => _ end] =>
+          let E := fresh "E" in
+          destruct x eqn:E; try (exfalso; apply Hr; reflexivity); mono_rw f IH E
+      | context [if ?x then _ else _] => destruct x eqn:?
+      end
+  end;
+  try reflexivity;
+  match goal with
+  | Hr : _ <> POOF |- parse_let _ _ _ _ = _ => exact (mo_let f IH _ _ _ eq_refl Hr)
+  | Hr : _ <> POOF |- parse_expression _ _ _ _ = _ => exact (mo_expr f IH _ _ _ eq_refl Hr)
+  | Hr : _ <> POOF |- call_level _ _ _ _ _ = _ => exact (mo_call f IH _ _ _ _ eq_refl Hr)
+  | Hr : _ <> POOF |- parse_op_loop _ _ _ _ _ _ _ _ = _ => exact (mo_loop f IH _ _ _ _ _ _ _ eq_refl Hr)
+  | Hr : _ <> POOF |- parse_nonop _ _ _ _ = _ => exact (mo_nonop f IH _ _ _ eq_refl Hr)
+  | Hr : _ <> POOF |- parse_postfix _ _ _ _ _ _ = _ => exact (mo_postfix f IH _ _ _ _ _ eq_refl Hr)
+  | Hr : _ <> POOF |- parse_switch _ _ _ _ _ _ _ = _ => exact (mo_switch f IH _ _ _ _ _ _ eq_refl Hr)
+  | Hr : _ <> POOF |- parse_args_loop _ _ _ _ _ _ _ = _ => exact (mo_args_loop f IH _ _ _ _ _ _ eq_refl Hr)
+  | Hr : _ <> POOF |- parse_map _ _ _ _ _ _ = _ => exact (mo_map f IH _ _ _ _ _ eq_refl Hr)
+  | _ => idtac
+  end.
+
+Lemma mo_step f : mo_at f -> mo_at (S f).
+Proof.
+  intros IH. constructor.
+  - intros ids ts r H Hr. subst r. rewrite parse_let_S in Hr |- *. rewrite (parse_let_S cfg ids f ts). mono_walk f IH.
+  - intros ids ts r H Hr. subst r. rewrite !expression_is_level0 in *. exact (mo_call f IH _ _ _ _ eq_refl Hr).
+  - intros k ids ts r H Hr. subst r. unfold call_level in Hr |- *. destruct (_ <? _).
+    + rewrite parse_op_S in Hr |- *. rewrite (parse_op_S cfg ids f k ts). mono_walk f IH.
+    + rewrite parse_unary_S in Hr |- *. rewrite (parse_unary_S cfg ids f ts).
+      destruct (head_unary cfg ts); [|exact (mo_nonop f IH _ _ _ eq_refl Hr)].
+      destruct (op_pos (c_ops cfg) (kimg (peek ts))) as [p|]; mono_walk f IH.
+  - intros k o a u ids ts r H Hr. subst r. rewrite parse_op_loop_S in Hr |- *.
+    rewrite (parse_op_loop_S cfg ids f k o a u ts). mono_walk f IH.
+  - intros ids ts r H Hr. subst r. rewrite parse_nonop_S in Hr |- *. rewrite (parse_nonop_S cfg ids f ts). mono_walk f IH.
+  - intros e u ids ts r H Hr. subst r. rewrite parse_postfix_S in Hr |- *.
+    rewrite (parse_postfix_S cfg ids f e u ts). mono_walk f IH.
+  - intros ids ts r H Hr. subst r. rewrite parse_literal_S in Hr |- *. rewrite (parse_literal_S cfg ids f ts). mono_walk f IH.
+  - intros sv cs u ids ts r H Hr. subst r. rewrite parse_switch_S in Hr |- *.
+    rewrite (parse_switch_S cfg ids f sv cs u ts). mono_walk f IH.
+  - intros c ids ts r H Hr. subst r. rewrite parse_args_S in Hr |- *. rewrite (parse_args_S cfg ids f c ts). mono_walk f IH.
+  - intros c acc u ids ts r H Hr. subst r. rewrite parse_args_loop_S in Hr |- *.
+    rewrite (parse_args_loop_S cfg ids f c acc u ts). mono_walk f IH.
+  - intros m u ids ts r H Hr. subst r. rewrite parse_map_S in Hr |- *. rewrite (parse_map_S cfg ids f m u ts). mono_walk f IH.
+Qed.
+
+Lemma mo_all : forall f, mo_at f.
+Proof.
+  induction f as [|f IH]; [|apply mo_step; exact IH].
+  constructor; intros; subst; exfalso; try (apply H0; reflexivity).
+  apply H0. unfold call_level. destruct (_ <? _); reflexivity.
+Qed.
+
+Lemma parse_fuel_mono : forall f f' ids ts r, f <= f' ->
+  parse_fuel cfg f ids ts = r -> r <> POOF -> parse_fuel cfg f' ids ts = r.
+Proof.
+  intros f f' ids ts r Hle. induction Hle as [|f' Hle IH]; [auto|].
+  intros H Hr. specialize (IH H Hr). unfold parse_fuel in *.
+  destruct (parse_let cfg f' ids ts) as [[[a u] rest]| | |] eqn:E.
+  - rewrite (mo_let f' (mo_all f') _ _ _ E ltac:(discriminate)). exact IH.
+  - rewrite (mo_let f' (mo_all f') _ _ _ E ltac:(discriminate)). exact IH.
+  - rewrite (mo_let f' (mo_all f') _ _ _ E ltac:(discriminate)). exact IH.
+  - subst r. exfalso. apply Hr. reflexivity.
+Qed.
+
+(* whatever some fuel computes, the canonical fuel of [parse] computes *)
+Theorem parse_fuel_stable : forall f ids ts r, parse_fuel cfg f ids ts = r -> r <> POOF -> parse cfg ids ts = r.
+Proof.
+  intros f ids ts r H Hr. unfold parse.
+  pose proof (parse_total ids ts (fuel_for cfg ts) (Nat.le_refl _)) as T.
+  destruct (parse_fuel cfg (fuel_for cfg ts) ids ts) eqn:E; try contradiction.
+  - pose proof (parse_fuel_mono (fuel_for cfg ts) (Nat.max f (fuel_for cfg ts)) _ _ _ ltac:(lia) E ltac:(discriminate)).
+    pose proof (parse_fuel_mono f (Nat.max f (fuel_for cfg ts)) _ _ _ ltac:(lia) H Hr). congruence.
+  - pose proof (parse_fuel_mono (fuel_for cfg ts) (Nat.max f (fuel_for cfg ts)) _ _ _ ltac:(lia) E ltac:(discriminate)).
+    pose proof (parse_fuel_mono f (Nat.max f (fuel_for cfg ts)) _ _ _ ltac:(lia) H Hr). congruence.
+Qed.
+
 End Total.
